@@ -111,7 +111,13 @@ def projection(pid, shell, d):
     return ()
 
 
+SHELLS = {b"bash", b"bash-ble", b"cmd-clink", b"elvish", b"export", b"fish", b"ion", b"nushell", b"oil", b"powershell", b"tcsh", b"xonsh", b"zsh"}
+
+
 def case_summary(fields, impl_out):
+    if not fields or fields[0] not in SHELLS:      # a case of a further stream (generic.EXTRA)
+        import generic
+        return generic.case_summary(fields, impl_out)
     f = fields
     nm = int(f[21])
     nv = int(f[22 + nm])
@@ -235,6 +241,16 @@ def explore(pid, ctx):
         samples=[case_summary(f, impl[0]) for _, f, impl in cases[len(corpus):len(corpus) + 400:97]][:4],
         explore_wall_s=round(time.time() - t0, 1),
     )
+    import generic
+    if pid in generic.EXTRA:                       # further streams of this property (C06: Suppress)
+        more = generic.explore(pid, ctx, cfg=generic.EXTRA[pid])
+        failures += more["failures"]
+        tie_broken += more["tie_broken"]
+        errors += more["errors"]
+        cov["further_streams"] = more["coverage"]
+        cov["evaluations"] += more["coverage"]["evaluations"]
+        cov["traces_validated_against_impl"] += more["coverage"]["traces_validated_against_impl"]
+        cov["distinct_nontrivial"] += more["coverage"]["distinct_nontrivial"]
     return dict(failures=failures, tie_broken=tie_broken, coverage=cov, errors=errors)
 
 
@@ -259,6 +275,9 @@ def load_corpus(pid, scratch):
 def replay(pid, payload, ctx):
     """re-run a stored counterexample; returns list of failures of pid that still occur"""
     fields = [bytes.fromhex(x) for x in payload["case_hex"]]
+    if not fields or fields[0] not in SHELLS:      # a case of a further stream (generic.EXTRA)
+        import generic
+        return generic.replay(pid, payload, ctx, cfg=generic.EXTRA[pid])
     extras = [bytes.fromhex(x) for x in payload.get("extras_hex", ["", "", ""])]
     scratch = os.path.join(lib.WORK, pid + "-replay")
     res = rerun_case(fields, [b""] + extras, scratch)
